@@ -83,6 +83,26 @@ def build(rng, op, sizes, den):
         return flat_sx(G.grid_simplex(rng, nx, den, kind())) + flat_sx(G.grid_simplex(rng, nx, den, kind()))
     if op.startswith("fold:"):
         return sum((flat_op(G.grid_opinion(rng, nx, den)) for _ in range(3)), [])
+    if op in ("mbr", "deduce", "deduce_with", "abduce") and rng.chance(1, 4):
+        # tiny but positive total weight (exact dyadic values, the same for both element types): below the single-
+        # precision epsilon, far above the double-precision one
+        k = rng.below(nx)
+        t = 2.0 ** -rng.choice([10, 12, 14, 20])
+        small = 2.0 ** -rng.choice([10, 12, 14])
+        ax = G.grid_dist(rng, nx - 1, 8, True)
+        i = rng.below(nx - 1)
+        ax[i] -= t
+        ax.insert(k, t)
+        bb = [0.0] * ny
+        bb[rng.below(ny)] = small
+        cs = [(bb, 1.0 - small) if j == k else ([0.0] * ny, 1.0) for j in range(nx)]
+        if op == "mbr":
+            return ax + f(cs)
+        if op == "abduce":
+            return flat_sx(G.grid_simplex(rng, ny, den)) + f(cs) + ax
+        w = G.grid_opinion(rng, nx, den)
+        base = list(w[0]) + [w[1]] + ax + f(cs)
+        return base if op == "deduce" else base + G.grid_dist(rng, ny, den, True)
     if op == "mbr":
         return G.grid_dist(rng, nx, den) + f(tb(nx, ny))
     if op == "deduce":
